@@ -31,6 +31,12 @@ func NewSolver(bin string, timeoutMs int) (*Solver, error) {
 	if timeoutMs > 0 {
 		args = append(args, fmt.Sprintf("-t:%d", timeoutMs))
 	}
+	if strings.Contains(bin, "cvc5") {
+		args = []string{"--incremental", "--produce-models", "--lang=smt2", "-q"}
+		if timeoutMs > 0 {
+			args = append(args, fmt.Sprintf("--tlimit-per=%d", timeoutMs))
+		}
+	}
 	c := exec.Command(bin, args...)
 	in, err := c.StdinPipe()
 	if err != nil {
@@ -44,6 +50,9 @@ func NewSolver(bin string, timeoutMs int) (*Solver, error) {
 		return nil, err
 	}
 	sv := &Solver{cmd: c, in: bufio.NewWriterSize(in, 1<<16), out: bufio.NewReaderSize(out, 1<<16), TimeoutMs: timeoutMs}
+	if strings.Contains(bin, "cvc5") {
+		sv.send("(set-logic ALL)")
+	}
 	return sv, nil
 }
 
@@ -258,6 +267,7 @@ type PathState struct {
 	ChoiceVals  map[string]int
 	Fixed       map[string]string
 
+	floatOf map[string]string // bits constant -> float term it encodes
 	consts  []Nondet          // every declared constant (inputs and internal)
 	defs    map[string]string // define-fun bodies
 	M       map[string]ev     // a model of the path condition (when mValid)
@@ -268,7 +278,7 @@ type PathState struct {
 
 func newPathState(s *Solver, prefix []int32, params map[string]int) *PathState {
 	return &PathState{S: s, Prefix: prefix, declared: map[string]bool{}, decided: map[string]bool{},
-		Reached: map[string]int{}, Params: params, MaxDecisions: 20000, ChoiceVals: map[string]int{}, defs: map[string]string{}, M: map[string]ev{}}
+		Reached: map[string]int{}, Params: params, MaxDecisions: 20000, ChoiceVals: map[string]int{}, defs: map[string]string{}, M: map[string]ev{}, floatOf: map[string]string{}}
 }
 
 // name introduces a definition for long terms so that term text stays small.
